@@ -10,17 +10,17 @@ def modules():
             "fmfile": dict(harness=["fm_file.cpp"], entries=ENTRIES)}
 
 
-MODELS_Q = [(SSE, EXPORTINFO | TEXPATH), (FO4, EXPORTINFO | EXTRA), (OB, TEXPATH | SRCTEX), (OB, SKIN | COLL | STRIPPART), (OB, SKIN | SHAPEEXTRA | EXTRA), (SSE, LOOSE | ROOT1 | EXTRA), (OB, EXTRA | SHAPE2 | LOOSECHAIN), (SSE, LOOSECHAIN | LOOSE | CTRL), (FO3, SKIN | EXTRA | SRCTEX | STRIPPART), (SK, SKIN | CTRL | SHAPE2), (SSE, SKIN | COLL | EXTRA | LOOSE),
+MODELS_Q = [(SSE, EXPORTINFO | TEXPATH), (FO4, EXPORTINFO | EXTRA | VERTEXTRA), (OB, TEXPATH | SRCTEX), (OB, SKIN | COLL | STRIPPART), (OB, SKIN | SHAPEEXTRA | EXTRA), (SSE, LOOSE | ROOT1 | EXTRA), (OB, EXTRA | SHAPE2 | LOOSECHAIN), (SSE, LOOSECHAIN | LOOSE | CTRL), (FO3, SKIN | EXTRA | SRCTEX | STRIPPART), (SK, SKIN | CTRL | SHAPE2), (SSE, SKIN | COLL | EXTRA | LOOSE),
             (SSE, SHAPE2 | CHILDNODE), (FO4, SKIN | EXTRA | LOOSE), (FO76, EXTRA | SHAPE2)]
-MODELS_T = MODELS_Q + [(v, f) for v in (OB, FO3, SK, SSE, FO4, FO76) for f in (0, SKIN, SKIN | COLL | EXTRA | CTRL | SHAPE2 | LOOSE | CHILDNODE, CTRL | LOOSE, SYMPOS | SKIN)]
+MODELS_T = MODELS_Q + [(v, f) for v in (OB, FO3, SK, SSE, FO4, FO76) for f in (0, SKIN, SKIN | COLL | EXTRA | CTRL | SHAPE2 | LOOSE | CHILDNODE, CTRL | LOOSE, SHAPE2 | SKIN | STRIPPART)]
 
 
 def jobs(entry, tier, extra_args=(), budget=None, sympos=False, **kw):
     J = []
     bud = budget or (120 if tier == "quick" else 900)
     for ver, feat in (MODELS_Q if tier == "quick" else MODELS_T):
-        if sympos and tier == "quick" and ver in (SK, FO4):
-            feat |= SYMPOS
+        # (symbolic vertex positions are not used at file level: Create()/UpdateBounds() run Miniball, whose control flow over
+        #  symbolic floats is beyond the solver budget; such paths would only end as "unknown")
         j = dict(entry=entry, args=[ver, feat] + list(extra_args), budget=bud, mod="fmfile")
         j.update(kw)
         J.append(j)
